@@ -153,13 +153,16 @@ def wl_history(ctx, rng, case):
 
 def wl_grid(ctx, rng, case):
     """every (est, queue) of a grid with distinct keys only (no false-positive luck needed): long enough to rotate several times"""
-    ests = [1, 2, 3, 4, 5, 6, 7]
-    Qs = [1, 2, 3, 4, 5]
+    ests = [1, 2, 3, 4, 5, 6, 7, 20, 64]
+    Qs = [1, 2, 3, 4, 5, 10]
     est = ests[case.index % len(ests)]
     Q = Qs[(case.index // len(ests)) % len(Qs)]
-    rate = [0.01, 0.001, 0.05][(case.index // 35) % 3]
-    keys = [f"g{case.index}-{i}" for i in range(3 * est * Q + 6)]
+    rate = [0.01, 0.001, 0.05][(case.index // 54) % 3]
     case.desc = {"est": est, "queue": Q, "rate": rate, "kind": "grid"}
+    if est * Q > 200:
+        case.desc["skipped"] = "grid point too large for a per-step full check"
+        return
+    keys = [f"g{case.index}-{i}" for i in range(3 * est * Q + 6)]
     ctx.observe("est_elements", est)
     ctx.observe("queue_sizes", Q)
     sc = bl.Scratch(ctx, case)
@@ -199,11 +202,11 @@ PROP = Prop(
     "C10",
     "exploration",
     rule=("history: random sequences of add (new / duplicate / forced) / add_alt / push / pop / reload (max_queue_size re-supplied) on rotating filters "
-          "with est_elements 1..6, max_queue_size 1..5, 8 rates, 8 hash strategies; grid: every (est 1..7) x (queue 1..5) x 3 rates with mostly "
+          "with est_elements 1..6, max_queue_size 1..5, 8 rates, 8 hash strategies; grid: every (est 1..7, 20, 64) x (queue 1..5, 10) x 3 rates with mostly "
           "fresh keys, long enough to rotate several times. Non-trivial = at least one rotation that dropped the oldest filter, or a reload; "
           "distinct by hash of (parameters, operations)."),
     workloads=[
-        Workload("grid", wl_grid, quick=105, thorough=105),
+        Workload("grid", wl_grid, quick=162, thorough=162),
         Workload("history", wl_history, quick=1200, thorough=100000),
     ],
     assumptions=["only the lower bound of the retention window is asserted (Bloom false positives may keep a key longer); a key must be present while FEWER than (Q-1)*est further effective insertions happened ('until' read strictly)",
